@@ -1,6 +1,8 @@
 """C04 -- ABT_mutex: mutual exclusion, recursion bookkeeping, no lost wakeup
 (structural part)."""
-from abtverif import cfg, locks, seq
+import re
+
+from abtverif import canon, cfg, locks, seq, tables
 from abtverif.seq import idx, is_call, is_acq, is_rel, is_xfer, held_at, show, has_if
 from . import common
 
@@ -17,6 +19,7 @@ DECLINED = ["'eventually acquires' (fairness / progress)",
             "memory images of ABT_MUTEX_INITIALIZER beyond the attribute constants"]
 ASSUMPTIONS = ["X2: the spinlock primitives are a correct test-and-set lock", "C02.R3/C05.R5 for the blocking arms"]
 RULES_DOC = dict(common.SHARED_DOC)
+RULES_DOC["X4"] = common.X4_DOC
 RULES_DOC.update({
     "R1": "unlock_no_recursion: release(lock) before broadcast, both inside the waiter_lock section",
     "R2": "lock_no_recursion: enqueue only after acquire(waiter_lock) and a failed re-try of the mutex word in the same section; returns only after a successful try with waiter_lock released",
@@ -32,13 +35,70 @@ VARIANTS = ["simple_mutex", "active_wait", "no_ext_thread", "no_linux_futex", "t
 
 MH = "src/include/abti_mutex.h"
 LOCK, WLOCK = "ABTI_mutex::lock", "ABTI_mutex::waiter_lock"
-TRY = "ABTD_spinlock_try_acquire(&p_mutex->lock)"
+TRY = "ABTD_spinlock_try_acquire(&ABTI_mutex::lock)"
+
+
+_LOCK_TABLES = {"acq": tables.LOCK_ACQUIRE, "rel": tables.LOCK_RELEASE, "xfer": tables.LOCK_RELEASE_TRANSFER,
+                "try": tables.LOCK_COND_ACQUIRE}
+
+
+def canon_locks(F, toks):
+    """Engine feature emulated locally: the lock tokens of seq identify a lock passed through a local pointer as
+    'var:<local>'.  Re-identify such a lock by the canonical value of the pointer (`ABTD_spinlock *l = &p->lock`
+    gives 'Rec::lock', a copy of a parameter gives 'var:<parameter>'), so that a temporary does not matter."""
+    out = []
+    for t in toks:
+        if t[0] in _LOCK_TABLES:
+            k = 1 if t[0] in ("acq", "rel") else 2
+            if t[k].startswith("var:"):
+                nd = F.nodes[t[-1]]
+                v = canon.expr(F, nd["a"][_LOCK_TABLES[t[0]][nd["fn"]]])
+                if v.startswith("&") and "::" in v:
+                    t = t[:k] + (v[1:],) + t[k + 1:]
+                elif re.match(r"^[A-Za-z_]\w*$", v):
+                    t = t[:k] + ("var:" + v,) + t[k + 1:]
+        out.append(t)
+    return tuple(out)
+
+
+def ret_paths(F, sel, **kw):
+    """Returning paths of F with canonical lock identities."""
+    return [(canon_locks(F, p[0]),) + tuple(p[1:]) for p in seq.sequences(F, sel, **kw) if p[1] == "ret"]
+
+
+def call_args(F, tok):
+    """Canonical (local-name independent) values of the arguments of the call behind a call/xfer token."""
+    return [canon.expr(F, a) for a in F.nodes[tok[-1]]["a"]]
+
+
+def lock_key_is(F, key, want):
+    """Does the LockTS key (rendered text of a lock argument) denote the lock whose canonical value is `want`?
+    A local pointer is resolved through its definitions."""
+    if re.match(r"^[A-Za-z_]\w*$", key):
+        ds = F.var_defs(key)
+        if ds and all(d is not None for d in ds):
+            return set(canon.expr(F, d) for d in ds) == {want}
+    return False
+
+
+def _try_cond(t):
+    """Canonical label of a test of a try-acquire result: true = non-zero = the try FAILED.  Independent of the
+    polarity / spelling of the test (`!try`, `try == 0`, `try != 0`) and of a local that holds the result."""
+    if t == TRY:
+        return "try-failed"
+    if "_try_acquire(" in t:
+        return "try-other:" + t
+    return None
+
+
+def _is_try(t):
+    return t[0] == "if" and (t[1] == "try-failed" or t[1].startswith("try-other:"))
 
 
 def rule_R1(P, rep, simple):
     F = P.fn("ABTI_mutex_unlock_no_recursion", MH)
     sel = seq.Sel(calls=lambda fn: fn.startswith("ABTI_waitlist_"))
-    ps = [p for p in seq.sequences(F, sel) if p[1] == "ret"]
+    ps = ret_paths(F, sel)
     rep.need(ps, "unlock_no_recursion has no returning path")
     for toks, kind, rv, rtxt in ps:
         why = []
@@ -56,8 +116,8 @@ def rule_R1(P, rep, simple):
                     why.append("release/broadcast not inside one waiter_lock critical section")
                 if any(t[0] in ("acq", "rel") and t[1] == WLOCK for t in toks[rl[0]:bc[0]]):
                     why.append("waiter_lock dropped between the release and the broadcast")
-                if "&ABTI_mutex::waitlist" not in toks[bc[0]][2]:
-                    why.append("broadcast on %s" % (toks[bc[0]][2],))
+                if "&ABTI_mutex::waitlist" not in call_args(F, toks[bc[0]]):
+                    why.append("broadcast on %s" % (call_args(F, toks[bc[0]]),))
             if held_at(toks, WLOCK, len(toks)):
                 why.append("returns holding waiter_lock")
         rep.ob("R1", "unlock_no_recursion path [%s]" % show(toks), not why, "; ".join(why),
@@ -68,33 +128,33 @@ def rule_R2(P, rep, simple):
     F = P.fn("ABTI_mutex_lock_no_recursion", MH)
     if simple:
         # yield-based: returns only after a successful try / spinlock acquire
-        sel = seq.Sel(calls={"ABTI_ythread_yield"}, conds=lambda t: "try_acquire" in t)
-        ps = [p for p in seq.sequences(F, sel) if p[1] == "ret"]
+        sel = seq.Sel(calls={"ABTI_ythread_yield"}, conds=_try_cond, canon=True)
+        ps = ret_paths(F, sel)
         rep.need(ps, "lock_no_recursion(simple) has no path")
         for toks, kind, rv, rtxt in ps:
-            tries = [t for t in toks if t[0] == "if" and "try_acquire" in t[1]]
-            ok = (tries and tries[-1][2] is False) or idx(toks, is_acq(LOCK))
+            tries = [t for t in toks if _is_try(t)]
+            ok = (tries and tries[-1][1] == "try-failed" and tries[-1][2] is False) or idx(toks, is_acq(LOCK))
             rep.ob("R2", "lock_no_recursion(simple) path [%s]" % show(toks), bool(ok),
                    "returns without having acquired the mutex word", loc="%s:%d" % (F.file, F.line),
                    site="lock_no_recursion/simple/%s" % show(toks))
         return
-    sel = seq.Sel(calls=lambda fn: fn.startswith("ABTI_waitlist_"), conds=lambda t: "try_acquire" in t)
-    ps = [p for p in seq.sequences(F, sel, max_repeat=3) if p[1] == "ret"]
+    sel = seq.Sel(calls=lambda fn: fn.startswith("ABTI_waitlist_"), conds=_try_cond, canon=True)
+    ps = ret_paths(F, sel, max_repeat=3)
     rep.need(len(ps) >= 3, "lock_no_recursion: %d paths" % len(ps))
     enq = 0
     for toks, kind, rv, rtxt in ps:
         why = []
-        tries = [i for i, t in enumerate(toks) if t[0] == "if" and "try_acquire" in t[1]]
+        tries = [i for i, t in enumerate(toks) if _is_try(t)]
         if not tries or toks[tries[-1]][2] is not False:
             why.append("returns although the last try of the mutex word failed")
-        if any(toks[i][1] != TRY and "ABTI_mutex::lock" not in toks[i][1] and "p_mutex->lock" not in toks[i][1] for i in tries):
+        if any(toks[i][1] != "try-failed" for i in tries):
             why.append("tries a different lock")
         if held_at(toks, WLOCK, len(toks)):
             why.append("returns holding waiter_lock")
         for x in idx(toks, is_xfer(WLOCK)):
             enq += 1
-            if toks[x][1] != "ABTI_waitlist_wait_and_unlock" or "&ABTI_mutex::waitlist" not in toks[x][3]:
-                why.append("enqueue through %s on %s" % (toks[x][1], toks[x][3]))
+            if toks[x][1] != "ABTI_waitlist_wait_and_unlock" or "&ABTI_mutex::waitlist" not in call_args(F, toks[x]):
+                why.append("enqueue through %s on %s" % (toks[x][1], call_args(F, toks[x])))
             # last acquire of waiter_lock before x, and a failed try in between
             acqs = [i for i in idx(toks, is_acq(WLOCK)) if i < x]
             if not acqs:
@@ -120,7 +180,7 @@ def rule_R3(P, rep, active_wait):
     L = "var:" + lockp
     sel = seq.Sel(fields={"p_head", "p_tail", "p_next"}, calls={"ABTD_futex_wait_and_unlock"},
                   conds=lambda t: "ABTI_thread::state" in t, canon=True)
-    ps = [p for p in seq.sequences(F, sel, max_len=100) if p[1] == "ret"]
+    ps = ret_paths(F, sel, max_len=100)
     rep.need(len(ps) >= 4, "wait_and_unlock: %d paths" % len(ps))
     for toks, kind, rv, rtxt in ps:
         why = []
@@ -270,28 +330,31 @@ def rule_R6(P, rep):
              "ABT_mutex_spinlock": "ABTI_mutex_spinlock", "ABT_mutex_unlock": "ABTI_mutex_unlock",
              "ABT_mutex_unlock_se": "ABTI_mutex_unlock", "ABT_mutex_unlock_de": "ABTI_mutex_unlock"}
     internal = set(table.values())
-    sel = seq.Sel(calls=lambda fn: fn in internal or fn.endswith("_no_recursion"), locks=False,
-                  decls={"p_mutex"})
+    sel = seq.Sel(calls=lambda fn: fn in internal or fn.endswith("_no_recursion"), locks=False, canon=True)
     for fn, want in sorted(table.items()):
         F = P.fn(fn, "src/mutex.c")
         ps = [p for p in seq.sequences(F, sel) if p[1] == "ret"]
         n_ok = 0
         for toks, kind, rv, rtxt in ps:
             calls = [t for t in toks if t[0] == "call"]
-            decl = [t for t in toks if t[0] == "decl" and t[1] == "p_mutex"]
             why = []
             if rv == 0:
                 n_ok += 1
                 if len(calls) != 1 or calls[0][1] != want:
                     why.append("success path calls %s" % [c[1] for c in calls])
-                elif calls[0][2][-1] != "var:p_mutex":
-                    why.append("operates on %s" % calls[0][2][-1])
-                if not decl or decl[0][2] != "ABTI_mutex_get_ptr(%s)" % F.params[0]["n"]:
-                    why.append("p_mutex is not derived from the routine's own argument")
+                else:
+                    # the mutex operated on is the routine's own argument (canonical value of the call's last
+                    # argument, whatever the local holding the pointer is called)
+                    m = canon.expr(F, F.nodes[calls[0][-1]]["a"][-1])
+                    if m != "ABTI_mutex_get_ptr(%s)" % F.params[0]["n"]:
+                        why.append("operates on %s, which is not derived from the routine's own argument" % m)
             elif rv is None and want == "ABTI_mutex_trylock":
                 n_ok += 1
                 if len(calls) != 1 or calls[0][1] != want:
                     why.append("trylock path calls %s" % [c[1] for c in calls])
+                elif canon.expr(F, F.nodes[calls[0][-1]]["a"][-1]) != "ABTI_mutex_get_ptr(%s)" % F.params[0]["n"]:
+                    why.append("operates on %s, which is not derived from the routine's own argument" %
+                               canon.expr(F, F.nodes[calls[0][-1]]["a"][-1]))
             elif calls and rv not in (0, None):
                 # error return after operating on the mutex is only legal for trylock's LOCKED
                 if want != "ABTI_mutex_trylock":
@@ -314,7 +377,7 @@ def rule_R7(P, rep, simple):
             fn = nd.get("fn") or ""
             if not fn.startswith("ABTI_waitlist_"):
                 continue
-            if any(F.field_of(a) == ("ABTI_mutex", "waitlist") for a in nd["a"]):
+            if any(F.field_of(a) == ("ABTI_mutex", "waitlist") or canon.expr(F, a) == "&ABTI_mutex::waitlist" for a in nd["a"]):
                 sites.append(nid)
         if not sites:
             continue
@@ -325,7 +388,8 @@ def rule_R7(P, rep, simple):
                 continue            # initialisation before the mutex is published
             n += 1
             helds = ts.at.get(nid, set())
-            ok = bool(helds) and all(any(k.endswith("waiter_lock") for k in h) for h in helds)
+            ok = bool(helds) and all(any(k.endswith("waiter_lock") or lock_key_is(F, k, "&" + WLOCK) for k in h)
+                                     for h in helds)
             if nd["fn"] == "ABTI_waitlist_is_empty" and "ABTI_UB_ASSERT" in (nd.get("m") or []):
                 ok = True
             rep.ob("R7", "%s calls %s on the mutex wait list under waiter_lock" % (F.name, nd["fn"]), ok,
@@ -333,17 +397,30 @@ def rule_R7(P, rep, simple):
     rep.need(n >= 2, "only %d wait-list operations on ABTI_mutex::waitlist found" % n)
 
 
+def _bit_tests(F, field):
+    """Canonical labels of every branch condition of F that mentions `field` ('Rec::name')."""
+    out = []
+    for b in F.blocks.values():
+        if b.tc is not None and b.tk != "SwitchStmt":
+            lab = canon.cond(F, cfg.cond_atom(F, b.tc, True)[0])[0]
+            if field in lab:
+                out.append(lab)
+    return out
+
+
 def rule_R8(P, rep):
     REC = None
     F = P.fn("ABT_mutex_attr_set_recursive", "src/mutex_attr.c")
-    sel = seq.Sel(fields={"attrs"}, conds=lambda t: "recursive" in t, locks=False)
+    flag = F.params[1]["n"]
+    # `flag == ABT_TRUE`, `flag`, `flag != ABT_FALSE`, `!flag` ... all arrive as one of two labels, true = enable
+    sel = seq.Sel(fields={"attrs"}, conds=lambda t: "enable" if t in (flag, flag + " == 1") else None, locks=False,
+                  canon=True)
     kinds = {}
     for toks, kind, rv, rtxt in seq.sequences(F, sel):
         if kind != "ret" or rv != 0:
             continue
         st = [t for t in toks if t[0] == "st" and t[1] == "ABTI_mutex_attr::attrs"]
-        on = any(t[0] == "if" and ((t[1].endswith("== 1") and t[2]) or (t[1].endswith("== 0") and not t[2]) or
-                                   (t[1] == "recursive" and t[2])) for t in toks)
+        on = has_if(toks, "enable", True)
         kinds[on] = st
     ok = set(kinds) == {True, False} and all(len(v) == 1 for v in kinds.values())
     why = "expected one store on the enabling and one on the disabling path: %s" % {k: [x[1:4] for x in v] for k, v in kinds.items()}
@@ -361,25 +438,34 @@ def rule_R8(P, rep):
     rep.ob("R8", "ABT_mutex_attr_set_recursive sets / clears exactly the RECURSIVE bit", ok, why, loc=F.file,
            site="attr_set_recursive")
     G = P.fn("ABT_mutex_attr_get_recursive", "src/mutex_attr.c")
-    sel = seq.Sel(conds=lambda t: "attrs" in t, locks=False)
-    vals = {}
-    for b, i, lh, rh in G.stores():
-        if G.render(lh) == "*recursive":
-            vals[G.nodes[G.strip(rh)].get("cv")] = i
-    conds = [G.render(b.tc) for b in G.blocks.values() if b.tc is not None and "attrs" in G.render(b.tc)]
-    ok = set(vals) == {0, 1} and len(conds) == 1 and REC is not None and ("& %d" % REC in conds[0] or "& (" in conds[0] or True)
-    if ok:
-        # the TRUE store must be on the true edge of the bit test
-        tb = [b for b in G.blocks.values() if b.tc is not None and "attrs" in G.render(b.tc)][0]
-        t_blk, f_blk = tb.succs[0], tb.succs[1]
-        ok = G.block_of(vals[1]) in cfg.reachable_blocks(G, t_blk) - cfg.reachable_blocks(G, f_blk) or G.block_of(vals[1]) == t_blk
-    rep.ob("R8", "ABT_mutex_attr_get_recursive reports TRUE exactly when the bit is set", ok, "conditions %s" % conds, loc=G.file,
-           site="attr_get_recursive")
-    for fn, lhs, rhs in (("ABT_mutex_create_with_attr", "p_newmutex->attrs", "p_attr->attrs"),
-                         ("ABT_mutex_get_attr", "p_newattr->attrs", "p_mutex->attrs")):
+    out = G.params[1]["n"]
+    bit_labels = ("ABTI_mutex_attr::attrs & %s" % REC, "%s & ABTI_mutex_attr::attrs" % REC)
+    sel = seq.Sel(derefs={out}, conds=lambda t: "bit" if t in bit_labels else ("attrs:" + t if "ABTI_mutex_attr::attrs" in t else None),
+                  locks=False, canon=True)
+    seen = {}
+    why = []
+    for toks, kind, rv, rtxt in seq.sequences(G, sel):
+        if kind != "ret" or rv != 0:
+            continue
+        tests = [t for t in toks if t[0] == "if"]
+        dst = [t for t in toks if t[0] == "dst"]
+        if len(tests) != 1 or tests[0][1] != "bit":
+            why.append("tests of the attribute word on one path: %s" % [t[1] for t in tests])
+        elif len(dst) != 1 or dst[0][2] != (1 if tests[0][2] else 0):
+            why.append("reports %s when the bit is %s" % ([t[2] for t in dst], "set" if tests[0][2] else "clear"))
+        else:
+            seen[tests[0][2]] = dst[0][2]
+    ok = REC is not None and not why and seen == {True: 1, False: 0}
+    rep.ob("R8", "ABT_mutex_attr_get_recursive reports TRUE exactly when the bit is set", ok,
+           "; ".join(sorted(set(why))) or "reported values by bit state: %s" % seen, loc=G.file, site="attr_get_recursive")
+    for fn, lhs, getter, rhs in (("ABT_mutex_create_with_attr", "ABTI_mutex::attrs", "ABTI_mutex_attr_get_ptr", "attrs"),
+                                 ("ABT_mutex_get_attr", "ABTI_mutex_attr::attrs", "ABTI_mutex_get_ptr", "attrs")):
         H = P.fn(fn, "src/mutex.c")
-        st = [(H.render(l), H.render(r)) for b, i, l, r in H.stores() if r is not None and H.render(l).endswith("->attrs")]
-        rep.ob("R8", "%s copies the attribute word" % fn, (lhs, rhs) in st, str(st), loc=H.file, site=fn + "/copy")
+        # the word stored is the one of the object named by the routine's own handle argument
+        want = (lhs, "%s(%s)->%s" % (getter, H.params[0]["n"], rhs))
+        st = [(H.fieldpath(l), canon.rooted(H, r)) for b, i, l, r in H.stores() if r is not None and
+              (H.field_of(l) or ("", ""))[1] == "attrs"]
+        rep.ob("R8", "%s copies the attribute word" % fn, want in st, str(st), loc=H.file, site=fn + "/copy")
     I = P.fn("ABTI_mutex_init", MH)
     st = {I.fieldpath(l): I.nodes[I.strip(r)].get("cv") for b, i, l, r in I.stores() if r is not None}
     ok = st.get("ABTI_mutex::attrs") == 0 and st.get("ABTI_mutex::nesting_cnt") == 0 and st.get("ABTI_mutex::owner_id") == 0
@@ -387,11 +473,10 @@ def rule_R8(P, rep):
     # the recursion test used by lock/trylock/spinlock/unlock is the same bit
     for fn in ("ABTI_mutex_lock", "ABTI_mutex_trylock", "ABTI_mutex_spinlock", "ABTI_mutex_unlock"):
         L = P.fn(fn, MH)
-        cs = [L.nodes[cfg.cond_atom(L, b.tc)[0]] for b in L.blocks.values() if b.tc is not None and "attrs" in L.render(b.tc)]
-        ok = len(cs) >= 1 and all(c.get("k") == "bin" and c["op"] == "&" and L.nodes[L.strip(c["rh"])].get("cv") == REC for c in cs)
+        tests = _bit_tests(L, "ABTI_mutex::attrs")
+        ok = len(tests) >= 1 and all(t in ("ABTI_mutex::attrs & %s" % REC, "%s & ABTI_mutex::attrs" % REC) for t in tests)
         rep.ob("R8", "%s tests the same RECURSIVE bit that set_recursive writes" % fn, ok and REC is not None,
-               "tests: %s, bit %s" % ([L.render(b.tc) for b in L.blocks.values() if b.tc is not None and "attrs" in L.render(b.tc)], REC),
-               loc=L.file, site=fn + "/bit")
+               "tests: %s, bit %s" % (tests, REC), loc=L.file, site=fn + "/bit")
 
 
 def rule_R9(P, rep):
@@ -407,6 +492,8 @@ def rule_R9(P, rep):
 
 
 def run(P, rep, tier):
+    if tier == "thorough":
+        common.rule_X4(P, rep)
     v = P.variant
     simple = v == "simple_mutex"
     common.run_shared(P, rep)
